@@ -344,6 +344,8 @@ def play_hand(tid: int, spec: dict, rng: random.Random, pol: Policy, max_steps=4
     rec['cfg'] = pk.project_cfg(st, werr=werr, rake=spec.get('rake'),
                                 extra={'deckcards': sorted(card_int(c) for c in st.deck), 'variant': spec['variant'], 'sb': pk.chip(spec.get('sb', 0)), 'bb': pk.chip(spec.get('bb', 0)), 'deck': games.deck_name(st.deck)})
     rec['create'] = {'out': 'ok', 'post': play.observe(st, 0), 'micro': mic}
+    if spec.get('via_phh') == 'written':
+        rec['cfg']['written'] = games.Last.written or ''
     steps = rec['steps']
     k = 0
     while k < max_steps:
